@@ -113,6 +113,10 @@ pub fn isolate<S: Serialize + Clone + Send + 'static>(
 /// Violation class of a decoder panic: source file + message with numbers normalised (line numbers
 /// are left out so that unrelated edits to the file do not change the class).
 pub fn panic_class(loc: &str, msg: &str) -> String {
+    let (loc, site) = match loc.split_once('@') {
+        Some((l, s)) => (l, format!("@{s}")),
+        None => (loc, String::new()),
+    };
     let root = format!("{}/crates/", crate::harness::repo_root());
     let file = loc.trim_start_matches(root.as_str()).trim_start_matches("/repo/crates/").split(':').next().unwrap_or("").to_string();
     let file = if let Some(i) = file.find("/library/") { format!("std{}", &file[i + 8..]) } else { file };
@@ -130,7 +134,7 @@ pub fn panic_class(loc: &str, msg: &str) -> String {
         }
     }
     norm.truncate(70);
-    format!("panic:{file}:{norm}")
+    format!("panic:{file}:{norm}{site}")
 }
 
 pub fn strip_tags(class: &str) -> String {
